@@ -142,7 +142,8 @@ def gen_case(rng):
                 "patience": rng.choice([None, None, 0, 1, 2, 3]),
                 "form": rng.choice(["plain", "with"]),
                 "reput": kind in ("Store", "FilterStore") and rng.random() < 0.12,
-                "keep": rng.random() < 0.2,      # after the patience ran out: keep the request and wait for it again
+                "keep": rng.random() < 0.2,
+                "neg": (rng.choice(["neg", "zero"]) if kind == "Container" and rng.random() < 0.06 else None),      # after the patience ran out: keep the request and wait for it again
             })
         procs.append(its)
     pokes = [[rng.choice([0.5, 1, 2, 3, 4, 5]), rng.randrange(nproc)] for _ in range(rng.randint(0, 4))]
@@ -352,6 +353,20 @@ def run_case(case, stats):
             yield from wait(env.timeout(it["delay"]))
             lg.sync("pre-op")
             item = flt = fname = None
+            if kind == "Container" and it.get("neg"):
+                # a non-positive amount is refused with ValueError -- and leaves no trace (level, queues)
+                stats["refused_amounts"] += 1
+                q0 = (len(res.put_queue), len(res.get_queue), res.level)
+                try:
+                    (res.put if it["op"] == "put" else res.get)(-it["amount"] if it["neg"] == "neg" else 0)
+                    lg.bad("non-positive-amount-accepted", "a put / get with a non-positive amount was not refused with ValueError", it["op"])
+                except ValueError:
+                    pass
+                if (len(res.put_queue), len(res.get_queue), res.level) != q0:
+                    lg.bad("refused-request-left-a-trace", "a put / get refused with ValueError changed the level or stayed queued",
+                           {"before": repr(q0), "after": repr((len(res.put_queue), len(res.get_queue), res.level))})
+                lg.sync("refused")
+                continue
             if it["op"] == "put":
                 if kind == "Container":
                     ev = res.put(it["amount"])
@@ -411,7 +426,12 @@ def run_case(case, stats):
                 lg.waited += 1
                 lg.sync("cancel")
             else:
-                if it["form"] == "with":
+                if it["form"] == "with" and r[0] == "int":
+                    # the with-block is left by the Interrupt that was thrown into it: a no-op on a granted request,
+                    # whatever the exception (the granted item / amount stays with this process)
+                    ev.__exit__(Interrupt, Interrupt(r[1]), None)
+                    stats["with_exits_by_interrupt_on_granted"] += 1
+                elif it["form"] == "with":
                     ev.__exit__(None, None, None)      # no-op once granted
                 elif r[0] == "int" or not ev.processed:
                     ev.cancel()                          # no-op once granted
@@ -458,7 +478,7 @@ def run_case(case, stats):
 KEYS = ("grants", "advance_checks", "cancels_waiting", "head_cancelled_with_follower", "deliveries_checked",
         "equal_distinct_deliveries", "fcfs_checks", "level_checks", "mixed_syncs", "granted_after_waiting",
         "advance_with_waiters", "cancel_noop_granted", "pokes", "filter_nomatch_waits", "prio_deliveries_from_4plus", "filter_later_getter_checks",
-        "same_object_put_again", "priorityitem_puts", "requests_kept_after_timeout", "exact_amount_cases")
+        "same_object_put_again", "priorityitem_puts", "requests_kept_after_timeout", "exact_amount_cases", "refused_amounts", "with_exits_by_interrupt_on_granted")
 
 
 def one_case(ctx, case):
